@@ -168,6 +168,30 @@ func (d *c10Decompressor) Read(p []byte) (int, error) {
 }
 func (d *c10Decompressor) Close() error { return nil }
 
+// WriteTo makes the decompressor an io.WriterTo, as some real ones are (klauspost's zstd decoder):
+// an implementation that prefers WriteTo over bounded Reads inflates without any bound. Every byte
+// still goes through Read, i.e. through the accounting; the transfer stops at 64 MiB.
+func (d *c10Decompressor) WriteTo(w io.Writer) (int64, error) {
+	var total int64
+	buf := make([]byte, 32<<10)
+	for total < 64<<20 {
+		n, err := d.Read(buf)
+		if n > 0 {
+			if _, werr := w.Write(buf[:n]); werr != nil {
+				return total, werr
+			}
+			total += int64(n)
+		}
+		if err == io.EOF {
+			return total, nil
+		}
+		if err != nil {
+			return total, err
+		}
+	}
+	return total, errors.New("c10: decompressor drained without bound (64 MiB)")
+}
+
 func uvarint(b []byte) (uint64, int) {
 	var x uint64
 	var s uint
